@@ -79,7 +79,7 @@ func VerifC28_parse_frame() {
 
 // Packet-header parsers on arbitrary bytes (no keys: header parsing only).
 func VerifC28_parse_packet() {
-	n := vfLen("n", 0, c28parseLen()+2)
+	n := vfLen("n", 0, 11)
 	b := vfBytes("b", n)
 	pt := getPacketType(b)
 	vfObserve("ptype", uint64(pt))
